@@ -28,7 +28,8 @@ Intent(tr) == Leaves \o [i \in 1..Len(tr.ops) |->
 RecLine(ln) == [id |-> ln.id, op |-> ln.op, kids |-> ln.kids, num |-> QOf(ln.num), keys |-> ln.keys,
                 elem |-> ln.elem, kind |-> ln.kind, free |-> ln.free]
 RecSig(tr) == [q \in 1..Len(tr.lines) |-> RecLine(tr.lines[q])]
-RecTab(tr, r) == [free  |-> [k \in 1..Len(tr.freev) |-> QOf(tr.freev[k])],
+RecTab(tr, r) == [draws |-> << >>,
+                  free  |-> [k \in 1..Len(tr.freev) |-> QOf(tr.freev[k])],
                   fixed |-> [k \in 1..Len(tr.fixedv) |-> QOf(tr.fixedv[k])],
                   row   |-> [x \in 1..Len(tr.rows[r]) |-> QOf(tr.rows[r][x])]]
 
